@@ -24,18 +24,20 @@ META = {
     "bounds": {
         "quick": {"murmur3": "all messages of 0..13 bytes x all seeds in [0, 2^40) (covers every 32-bit seed and every BloomFilter seed "
                              "i*0xFBA4C795+tweak for i < 50, tweak < 2^32); the specification takes the seed mod 2^32",
-                  "bloom": "bit index observed at BloomFilter.add for sizes {1,2,3,7,8,36000} bytes x 50 functions x item lengths {0,1,5,13}, "
-                           "symbolic tweak and item; whole filter_bytes/filterload layout for sizes 1..3 bytes x 1..3 functions, two symbolic items",
+                  "bloom": "bit index observed at BloomFilter.add: sizes {2,36000} bytes x 50 functions x item lengths {0,5}, sizes "
+                           "{1,3,7,8} x 3 functions x item lengths {0,1,5,13}, symbolic tweak and item; whole filter_bytes/filterload layout for sizes 1..3 bytes x 1..3 functions, two symbolic items",
                   "siphash": "round lemma for all 2^320 (v0..v3, m); schedule for every message length 0..17, symbolic 16-byte key and message",
                   "range": "all h in [0,2^64), F in [1,2^32)",
                   "golomb": "all x in [0,2^26), P=19 (128 quotient paths); bit lists of 0..17 bits; byte strings of 0..3 bytes; arbitrary "
-                            "3..4-byte streams decoded; serialize_gcs/decode_gcs for 0..3 sorted items in [0, 2^22)",
-                  "no false negatives": "0..3 distinct items whose SipHash values are arbitrary 64-bit values (coinciding values included)",
+                            "3..4-byte streams decoded; serialize_gcs/decode_gcs for N = 0..3 sorted items in [0, N*M)",
+                  "no false negatives": "0..2 distinct items whose SipHash values are arbitrary 64-bit values, everything real; 2 items with "
+                                        "hash_to_range abstracted to its O2 contract (arbitrary function of (item, F) into [0,F)); 3 items with "
+                                        "additionally the codec abstracted to its O3 round-trip contract; coinciding values included",
                   "headers": "chains of 0..3 symbolic filter hashes on a symbolic previous header"},
-        "thorough": {"murmur3": "0..70 bytes, seeds [0,2^40)", "bloom": "index: item lengths 0..16; layout: sizes 1..4 x functions 1..4",
+        "thorough": {"murmur3": "0..70 bytes, seeds [0,2^40)", "bloom": "index: sizes {1,2,3,7,8,36000} x 50 functions x item lengths 0..16; layout: sizes 1..4 x functions 1..4",
                      "siphash": "message lengths 0..70", "range": "same",
-                     "golomb": "bit lists 0..40, byte strings 0..6, streams 3..6 bytes, gcs items in [0, 2^23)",
-                     "no false negatives": "same (0..3 items)", "headers": "0..8 filter hashes"}},
+                     "golomb": "bit lists 0..40, byte strings 0..6, streams 3..6 bytes, gcs items in [0, 2^22)",
+                     "no false negatives": "same", "headers": "0..8 filter hashes"}},
     "outside": ["element sets larger than 3 items / scripts as such: the items only enter through their SipHash value, which is arbitrary here",
                 "duplicate items in the list handed to encode_gcs (BIP158 hashes a *set*; the caller is taken to pass distinct items)",
                 "bloom filters larger than 4 bytes for the whole-array layout (the bit index itself is checked up to 36000 bytes)",
@@ -44,6 +46,11 @@ META = {
     "stubs": ["O1 schedule: sbuidl.siphash._doublesipround replaced by one uninterpreted function (4x64-bit outputs) on both sides; its "
               "equivalence with two reference SipRounds is the separate lemma obligation on the real function",
               "O2/O4/hashed_items: compactfilter._siphash replaced by arbitrary symbolic 64-bit values (one per distinct item)",
+              "O4 mode=range / range+codec (3 items with everything real: > 4 min, mostly 64x22-bit multiplications and term construction): "
+              "compactfilter.hash_to_range replaced by fresh values in [0,F) per (item, F) - the contract established by O2; for 3 items also "
+              "serialize_gcs/decode_gcs replaced by an opaque token with decode(serialize(v)) == v - the contract established by O3-gcs",
+              "O3-golomb, quotients >= 32: the bytes -> unpack_bits -> decode_golomb leg starts from the layout that the preceding assertion "
+              "showed equal to pack_bits(encode_golomb(x)) (quotients < 32 use the packed bytes themselves)",
               "hash256 (sha256) as an uninterpreted function on symbolic input",
               "`set` inside sbuidl.compactfilter replaced by a list-backed set with symbolic equality (hashing a symbolic int would enumerate it)",
               "BloomFilter.bit_field replaced by list subclasses (recording / ite-updating __setitem__) after construction",
@@ -552,7 +559,7 @@ def _sip_lemma_path():
     for i in range(4):
         check(s_and(out[i] >= 0, out[i] <= M64), f"_doublesipround output {i} leaves the 64-bit range", witness=w)
         check(out[i] == ref[i], f"_doublesipround output v{i} differs from two SipRounds", witness=w)
-    return "ok"
+    return Out("ok", tuple(out))
 
 
 def _sip_lemma_list_path():
@@ -573,7 +580,8 @@ def ob_sip_lemma():
         env = {f"v{i}": rng.choice([0, M64, rng.randrange(1 << 64)]) for i in range(4)}
         env["m"] = rng.choice([0, M64, 0xFF, rng.randrange(1 << 64)])
         return env
-    r1 = sym_run(_sip_lemma_path, gen_env=gen, n_val=8)
+    r1 = sym_run(_sip_lemma_path, gen_env=gen, n_val=8,
+                 native=lambda env: tuple(nat._doublesipround(tuple(env[f"v{i}"] for i in range(4)), env["m"])))
     r2 = sym_run(_sip_lemma_list_path)
     # the doctest vectors of the function itself, through the specification (concrete trusted-base sanity)
     for v, m in (((1, 2, 3, 4), 0), ((1, 2, 3, 4), 0xFF), ((0, 0, 0, 0), 0), ((0, 0, 0, 0), 0xFF)):
@@ -733,6 +741,7 @@ def replay_range(w):
 
 def _golomb_path(qlo, qhi):
     cf = _cf()
+    direct = qhi <= 32
     x = SI.var("x", qlo << P, (qhi << P) - 1)
     w = lambda env: {"x": env["x"]}  # noqa
     bits = cf.encode_golomb(x, P)
@@ -752,7 +761,9 @@ def _golomb_path(qlo, qhi):
     eb = spec_pack(e)
     check(_beq(by, eb), "pack_bits(encode_golomb(x)) differs from the BIP158 bit stream layout", witness=w)
     tail = SBytes.sym("tail", 1)
-    ub = cf.unpack_bits(by + tail)
+    # large quotients: the decode leg starts from the layout just shown equal to the packed bytes (its unary prefix is
+    # concrete, which saves ~q feasibility queries per path); small quotients go through the packed bytes themselves
+    ub = cf.unpack_bits((by if direct else eb) + tail)
     n0 = len(ub)
     z = cf.decode_golomb(ub, P)
     check(z == x, "decode_golomb(unpack_bits(pack_bits(encode_golomb(x)))) != x", witness=w)
@@ -948,17 +959,53 @@ def _items(n):
     return [bytes([0x51, 0x20 + i]) for i in range(n)]
 
 
-def _nofn_path(n):
-    cf = _cf()
-    hs = [SI.var(f"h{i}", 0, M64) for i in range(n)]
-    items = _items(n)
-    table = dict(zip(items, hs))
-    cf._siphash = lambda key, value: table[bytes(value)]
-    key = b"\x00" * 16
+class _Token:
+    """an encoded filter, opaque except for what decoding returns"""
 
-    def w(env):
-        hv = [env[f"h{i}"] for i in range(n)]
-        return {"n": n, "hashes": hv, "ranges": [(h * n * M) >> 64 for h in hv]}
+    def __init__(self, values):
+        self.values = list(values)
+
+    def __len__(self):
+        return len(self.values)
+
+    def __eq__(self, o):
+        return isinstance(o, _Token) and len(o) == len(self) and s_and(*[a == b for a, b in zip(self.values, o.values)])
+
+    __hash__ = None
+
+
+def _nofn_path(n, mode):
+    """mode 'exact': SipHash values are arbitrary 64-bit symbols and the real (h*F)>>64 arithmetic and codec run;
+    mode 'range': hash_to_range is replaced by its O2 contract - an arbitrary function of (item, F) into [0, F);
+    mode 'range+codec': additionally serialize_gcs/decode_gcs are replaced by their O3 round-trip contract"""
+    cf = _cf()
+    items = _items(n)
+    key = b"\x00" * 16
+    F = n * M
+    if mode == "exact":
+        hs = [SI.var(f"h{i}", 0, M64) for i in range(n)]
+        table = dict(zip(items, hs))
+        cf._siphash = lambda key, value: table[bytes(value)]
+
+        def w(env):
+            hv = [env[f"h{i}"] for i in range(n)]
+            return {"n": n, "mode": mode, "hashes": hv, "ranges": [(h * F) >> 64 for h in hv]}
+    else:
+        memo = {}
+        if mode == "range+codec":
+            # the codec is replaced by its round-trip contract decode_gcs(serialize_gcs(v)) == v (O3-gcs, N <= 3, values < N*M)
+            cf.serialize_gcs = lambda sorted_items: _Token(sorted_items)
+            cf.decode_gcs = lambda key, gcs: list(gcs.values)
+
+        def h2r(key, value, f):
+            k = (items.index(bytes(value)), _conc(f))
+            if k not in memo:
+                memo[k] = SI.var(f"r{k[0]}_{k[1]}", 0, k[1] - 1)
+            return memo[k]
+        cf.hash_to_range = h2r
+
+        def w(env):
+            return {"n": n, "mode": mode, "ranges": [env[f"r{i}_{F}"] for i in range(n)]}
     g = cf.encode_gcs(key, list(items))
     flt = cf.CompactFilter.parse(key, g)
     for i in range(n):
@@ -966,13 +1013,15 @@ def _nofn_path(n):
         check(bool(present), f"inserted item {i} of {n} is not reported present (false negative)", witness=w)
     g2 = flt.serialize()
     check(_beq(g2, g), "CompactFilter.parse(filter).serialize() != filter", witness=w)
-    # an arbitrary other element is reported present exactly when its mapped value is in the coded set
+    if mode != "range+codec":
+        check(_beq(flt.hash(), H256(g)), "CompactFilter.hash() is not hash256 of the filter it was parsed from", witness=w)
     return "ok"
 
 
-def ob_nofn(n):
-    r = sym_run(lambda: _nofn_path(n), timeout_ms=60000, max_violations=8)
-    r["sample"] = {"items": n, "siphash values": "arbitrary symbolic 64-bit (coinciding values allowed)"}
+def ob_nofn(n, mode):
+    r = sym_run(lambda: _nofn_path(n, mode), timeout_ms=60000, max_violations=6)
+    r["sample"] = {"items": n, "siphash values": "arbitrary symbolic 64-bit (coinciding values allowed)" if mode == "exact" else
+                   "range values arbitrary in [0, F) per (item, F) (coinciding values allowed)"}
     return r
 
 
@@ -1009,21 +1058,22 @@ def replay_nofn(w):
     """1) the real encode_gcs / parse / __contains__ with the witness' SipHash values substituted; 2) the same on entirely real inputs:
     concrete scripts found by search whose real SipHash-2-4 values coincide in the same pattern"""
     from buidl import compactfilter as cf
-    n, hs = w["n"], w["hashes"]
+    n = w["n"]
     items = _items(n)
     key = b"\x00" * 16
-    table = dict(zip(items, hs))
-    orig = cf._siphash
-    try:
-        cf._siphash = lambda k, v: table[bytes(v)]
-        g = cf.encode_gcs(key, list(items))
-        flt = cf.CompactFilter.parse(key, g)
-        stub_missing = [i for i in range(n) if not (_Spk(items[i]) in flt)]
-        stub_rt = flt.serialize() == g
-    finally:
-        cf._siphash = orig
-    if not stub_missing and stub_rt:
-        return {"violated": False, "observed": "all items present"}
+    if w.get("mode") == "exact":
+        table = dict(zip(items, w["hashes"]))
+        orig = cf._siphash
+        try:
+            cf._siphash = lambda k, v: table[bytes(v)]
+            g = cf.encode_gcs(key, list(items))
+            flt = cf.CompactFilter.parse(key, g)
+            stub_missing = [i for i in range(n) if not (_Spk(items[i]) in flt)]
+            stub_rt = flt.serialize() == g
+        finally:
+            cf._siphash = orig
+        if not stub_missing and stub_rt:
+            return {"violated": False, "observed": "all items present with the witness' SipHash values"}
     real = _real_items_with_pattern(key, n, w["ranges"])
     if real is None:
         return {"violated": None, "error": "no real items with the coincidence pattern found within the search budget"}
@@ -1138,19 +1188,22 @@ def obligations(tier):
     obs.append(Ob("O3-bits", ob_bits, {"maxbits": 17 if q else 40, "maxbytes": 3 if q else 6}, replay="bits"))
     for sizes in ((3,), (4,)) if q else ((3,), (4,), (5,), (6,)):
         obs.append(Ob("O3-decode-stream", ob_stream, {"sizes": sizes}, replay="stream", budget_s=1500))
-    bound = (1 << 22) if q else (1 << 23)
     for n in (0, 1, 2, 3):
-        obs.append(Ob("O3-gcs", ob_gcs, {"n": n, "bound": bound}, replay="gcs", budget_s=1500))
+        # quick: the range a real N-item filter uses, [0, N*M); thorough: [0, 2^22)
+        obs.append(Ob("O3-gcs", ob_gcs, {"n": n, "bound": max(n, 1) * M if q else (1 << 22)}, replay="gcs", budget_s=1500))
     # O4
-    for n in (0, 1, 2, 3):
-        obs.append(Ob("O4-no-false-negative", ob_nofn, {"n": n}, replay="nofn", budget_s=1500))
+    for n, mode in ((0, "exact"), (1, "exact"), (2, "exact"), (2, "range"), (3, "range+codec")):
+        obs.append(Ob("O4-no-false-negative", ob_nofn, {"n": n, "mode": mode}, replay="nofn", budget_s=1500))
     # O5
     mlens = list(range(0, 14)) if q else list(range(0, 71))
     chunk = 7 if q else 10
     for i in range(0, len(mlens), chunk):
         obs.append(Ob("O5-murmur3", ob_murmur, {"lengths": tuple(mlens[i:i + chunk])}, replay="murmur"))
     for size in (1, 2, 3, 7, 8, 36000):
-        obs.append(Ob("O5-bloom-index", ob_bloom_index, {"size": size, "fc": 50, "lengths": (0, 1, 5, 13) if q else tuple(range(0, 17))},
+        # the function index only enters through the seed and the size only through the modulus: 50 functions for two sizes
+        full = size in (2, 36000)
+        obs.append(Ob("O5-bloom-index", ob_bloom_index,
+                      {"size": size, "fc": 50 if full or not q else 3, "lengths": ((0, 5) if full else (0, 1, 5, 13)) if q else tuple(range(0, 17))},
                       replay="bloom", budget_s=900))
     top = 3 if q else 4
     for size in range(1, top + 1):
